@@ -92,14 +92,16 @@ CHECKS.update({
              "message, no Ok result, schedule of the offending follower and of the leader end with an error. The same scenarios "
              "run on the real actors (TLC behaviours + random schedules) and are judged by Mon_Server (MPC messages are counted "
              "at the in-process client). Program mismatches: different tokens, and the same characters with one line break moved "
-             "(a line comment swallowing the rest of the expression: a different program).",
+             "(a line comment swallowing the rest of the expression: a different program). Every (leader, offending follower) pair "
+             "for n=3 runs with a constant-free program (a matching follower told to run would start the MPC at once).",
         note=SERVER_NOTE, technique=SERVER_TECH),
     "C17": dict(
         category="model_checking", design_ref="DESIGN.md 4 C17",
         text="Several computations per party share one semaphore in ServerCore; one RPC failure can be injected into any single "
              "validate/run/consts call, cancels are mixed in. TLC checks exact permit accounting, the concurrency bound, that all "
              "permits are back once all policies have ended, and that a failed call ends the policy at the caller (with an error "
-             "notification). Real runs with injected failures (1..3 computations, concurrency 1..2, mixed leaders) are validated "
+             "notification). Real runs with injected failures (1..8 computations, concurrency 1..3, mixed leaders; the specification "
+             "is explored by simulation for batches of 4 and more) are validated "
              "against the spec and judged by Mon_Server using Semaphore::available_permits after every step. A policy whose MPC task "
              "has delivered its result or an MPC error has ended: once nothing can move it must have stopped with the permit back "
              "(C17TaskEndEnds). One scenario mixes cancel, RPC failure and a stray command and is checked against every server "
@@ -112,7 +114,8 @@ CHECKS.update({
         category="fault_enumeration", design_ref="DESIGN.md 4 C18",
         text="MpcArgs.tla is the decision table of validate(): argument classes (own index, evaluator index, output set incl. "
              "empty / out of range / repeated / unsorted, input length -1/+1/0, circuit: library-invalid classes and "
-             "inconsistent counters / misplaced or surplus Input instructions / out-of-range Input fields) x n in {2,3} x party x "
+             "inconsistent counters / misplaced, surplus or repeated Input instructions / Input fields at the boundary and far out of "
+             "range) x n in {2,3} x party x "
              "role. TLC checks that the tree's table implies what C18 demands and exports every row; each row is one real "
              "mpc() run; Mon_C18 requires Err with zero channel operations for invalid rows, reject-or-set semantics for "
              "repeated indices, correct results for valid rows, and no panic / no hang for every row.",
@@ -172,7 +175,8 @@ CHECKS.update({
              "consistently, once or persistently; Mon_Adv requires Err at every honest recipient. (b) commit-before-reveal is an "
              "invariant of MC_Sched over all interleavings and is monitored (Mon_C04b) on the operation traces of real runs under "
              "adversarial schedulers. (c) challenge-after-data is examined by Mon_C04c on probe values against a predictor fed "
-             "with the coin-toss openings seen on the wire. Two exhaustive models back (a): Wrk17Pre.tla (leaky AND, bucket "
+             "with the coin-toss openings seen on the wire, and as a message order by Mon_C04b (the seed of the KOS check "
+             "coefficients is sent only after the matrix it tests was received from that peer). Two exhaustive models back (a): Wrk17Pre.tla (leaky AND, bucket "
              "combination, Beaver as GF(2) algebra over all share bits: CheatDetected, PassImpliesCorrect, KeySecrecy, negative "
              "controls) and Broadcast.tla (echo broadcast over FIFO channels, all interleavings, liveness); the error each model "
              "predicts for a deviation is compared with what the replay of that deviation returned on the real code.",
@@ -205,7 +209,8 @@ CHECKS.update({
     "C11": dict(
         category="model_checking", design_ref="DESIGN.md 4 C11",
         text="Real KOS/ALSZ/Chou-Orlandi sessions for every length 1..40, 8k+-1, 128k+-1, 1023..1025, 4095, 4096 (thorough: every "
-             "length 1..4096) with all-0, all-1 and random choice vectors, random correlations, single sessions and "
+             "length 1..4096) with all-0, all-1 and random choice vectors, random correlations (plus all-zero, one block repeated, "
+             "zero / all-ones / one-bit entries mixed in), single sessions and "
              "sender-then-receiver / receiver-then-sender pairs on one 1-slot channel sharing one random stream, under the "
              "deterministic executor; TLC (Mon_C11) checks recv[i] = send[i] XOR c[i]*d[i] at every index, result lengths, equal "
              "stream positions afterwards, and the size of every message against the session part of Skeleton.tla.",
@@ -231,7 +236,8 @@ CHECKS.update({
              "as garbler and as evaluator) is judged by Mon_C06 from the transcript alone: for every input wire of the observed party "
              "the broadcast masked bit XOR the mask shares the others sent it (= input XOR own share) must be balanced for input 0 "
              "and input 1 alike (5 sigma), no two (party, run) may share a global key (probe) and no two canary runs the same "
-             "own-mask vector; 128 random canary input bits must not appear as the broadcast vector, its complement or a bit/byte "
+             "own-mask vector, the own shares of two input wires of one party must be independent (their XOR balanced); 128 random "
+             "canary input bits must not appear as the broadcast vector, its complement or a bit/byte "
              "pattern in the party's traffic. Clause 'a share that it never discloses': ABit.tla models the aBit consistency test as "
              "linear algebra over GF(2) (DisclosureIsExact, MaskedIfFullRank, LeakBound, soundness of the test) and Mon_ABit judges "
              "every fabitn call of real honest runs: no XOR of the public coefficient vectors may avoid every discarded position "
